@@ -410,14 +410,9 @@ def compare(t, a, b):
         c = _cmp(a[0], b[0])
         if c != 0:
             return c
-        ea, eb = a[1], b[1]
-        if ea == eb:
-            return 0
-        if (ea == "") != (eb == ""):
-            other = ea or eb
-            if other.encode() < b"default":
-                return UNCONSTRAINED
-            return -1 if ea == "" else 1
+        # Entrypoint_repr.default is the string "default" and Entrypoint.compare is a string comparison, so a destination
+        # without entrypoint sorts as if it were written %default (KT1X%approve < KT1X < KT1X%mint)
+        ea, eb = a[1] or "default", b[1] or "default"
         return _cmp(ea.encode(), eb.encode())
     raise ValueError("compare: %s is not comparable" % p)
 
